@@ -790,12 +790,12 @@ func (f *fgen) expr(t wenc.ValType, d int) {
 		case k == 14: // select
 			f.expr(t, d-1)
 			f.expr(t, d-1)
-			f.expr(i32, d-1)
+			f.cond(d - 1)
 			f.c.Select()
 			f.g.use("select")
 			return
 		case k == 15: // if/else with result
-			f.expr(i32, d-1)
+			f.cond(d - 1)
 			f.c.If(t)
 			f.labels = append(f.labels, label{arity: 1})
 			f.expr(t, d-1)
@@ -809,7 +809,7 @@ func (f *fgen) expr(t wenc.ValType, d int) {
 			f.c.Block(t)
 			f.labels = append(f.labels, label{arity: 1})
 			f.expr(t, d-1)
-			f.expr(i32, d-1)
+			f.cond(d - 1)
 			f.c.BrIf(0)
 			f.c.Drop()
 			f.expr(t, d-1)
@@ -859,6 +859,72 @@ func (f *fgen) expr(t wenc.ValType, d int) {
 		}
 	}
 	f.leaf(t)
+}
+
+// cond emits an i32 used as a branch/select condition. Half of the time it is a
+// comparison whose operand shapes matter to fused compare-and-branch lowerings:
+// constants on either side, zero against an `and`, eqz, float compares.
+func (f *fgen) cond(d int) {
+	r := f.r
+	if r.Bool() {
+		f.expr(i32, d)
+		return
+	}
+	t := []wenc.ValType{i32, i32, i64, f32, f64}[r.Intn(5)]
+	operand := func(side int) {
+		switch r.Intn(6) {
+		case 0:
+			f.constOf(t)
+		case 1: // zero
+			switch t {
+			case i32:
+				f.c.I32Const(0)
+			case i64:
+				f.c.I64Const(0)
+			case f32:
+				f.c.F32Const(0)
+			default:
+				f.c.F64Const(0)
+			}
+		case 2:
+			if t == i32 || t == i64 { // and / or / xor / sub of two leaves
+				f.leaf(t)
+				f.leaf(t)
+				base := byte(0x71)
+				if t == i64 {
+					base = 0x83
+				}
+				ops := []byte{base, base, base + 1, base + 2, base - 6} // and, and, or, xor, sub
+				f.c.Op(ops[r.Intn(len(ops))])
+			} else {
+				f.leaf(t)
+			}
+		default:
+			f.expr(t, d-1)
+		}
+	}
+	operand(0)
+	if (t == i32 || t == i64) && r.Chance(1, 6) {
+		if t == i32 {
+			f.c.Op(0x45)
+		} else {
+			f.c.Op(0x50)
+		}
+		f.g.use("cond-eqz")
+		return
+	}
+	operand(1)
+	switch t {
+	case i32:
+		f.c.Op(byte(0x46 + r.Intn(10)))
+	case i64:
+		f.c.Op(byte(0x51 + r.Intn(10)))
+	case f32:
+		f.c.Op(byte(0x5b + r.Intn(6)))
+	default:
+		f.c.Op(byte(0x61 + r.Intn(6)))
+	}
+	f.g.use("cond-compare")
 }
 
 // stmts emits up to n statements; returns true if the sequence ended with an
@@ -924,7 +990,7 @@ func (f *fgen) stmt() (terminated bool) {
 	r := f.r
 	d := f.g.cfg.Depth
 	c := f.c
-	k := r.Intn(30)
+	k := r.Intn(35)
 	if f.g.cfg.CallHeavy && r.Chance(1, 3) {
 		k = 9
 	}
@@ -966,7 +1032,7 @@ func (f *fgen) stmt() (terminated bool) {
 			}
 		}
 	case k < 13: // if / else
-		f.expr(i32, d)
+		f.cond(d)
 		c.If(0x40)
 		f.labels = append(f.labels, label{})
 		f.stmts(1 + r.Intn(3))
@@ -1169,6 +1235,99 @@ func (f *fgen) stmt() (terminated bool) {
 			c.Op(0xfe, 0x00).U32(2).U32(0)
 			c.Drop()
 			f.g.use("memory.atomic.notify")
+		}
+	case k == 30 || k == 31: // local shuffles: b=a; a=const / swaps / rotations (parallel-move lowering at loop back edges)
+		t := f.g.randType()
+		ls := f.localsOf(t)
+		if len(ls) >= 2 {
+			a, b := ls[r.Intn(len(ls))], ls[r.Intn(len(ls))]
+			switch r.Intn(4) {
+			case 0: // b = a; a = const
+				c.LocalGet(a).LocalSet(b)
+				f.constOf(t)
+				c.LocalSet(a)
+			case 1: // swap through the stack
+				c.LocalGet(a).LocalGet(b).LocalSet(a).LocalSet(b)
+			case 2: // rotate three
+				x := ls[r.Intn(len(ls))]
+				c.LocalGet(a).LocalGet(b).LocalGet(x).LocalSet(a).LocalSet(b).LocalSet(x)
+			default: // a = const; b = a (new value)
+				f.constOf(t)
+				c.LocalSet(a)
+				c.LocalGet(a).LocalSet(b)
+			}
+			f.g.use("local-shuffle")
+		}
+	case k == 32: // leave the function by a branch to the function label (br / br_if / br_table)
+		depth := uint32(len(f.labels) - 1)
+		for _, t := range f.sig.Results {
+			f.expr(t, d-1)
+		}
+		switch r.Intn(3) {
+		case 0:
+			c.Br(depth)
+			f.g.use("br-to-function-label")
+			return true
+		case 1:
+			f.cond(d - 1)
+			c.BrIf(depth)
+			for range f.sig.Results {
+				c.Drop()
+			}
+			f.g.use("br_if-to-function-label")
+		default:
+			f.expr(i32, 1)
+			n := 1 + r.Intn(3)
+			ls := make([]uint32, n)
+			for i := range ls {
+				ls[i] = depth
+			}
+			c.BrTable(ls, depth)
+			f.g.use("br_table-to-function-label")
+			return true
+		}
+	case k == 33: // loop whose back edge carries a shuffle of locals (phi parallel moves: b=a; a=const; swaps)
+		t := []wenc.ValType{i32, i64, i32}[r.Intn(3)]
+		ls := f.localsOf(t)
+		if len(ls) >= 3 && f.ctrUsed < len(f.counters) {
+			a, b, acc := ls[r.Intn(len(ls))], ls[r.Intn(len(ls))], ls[r.Intn(len(ls))]
+			ctr := f.counters[f.ctrUsed]
+			f.ctrUsed++
+			c.I32Const(int32(2 + r.Intn(4))).LocalSet(ctr)
+			c.Loop(0x40)
+			f.labels = append(f.labels, label{loop: true})
+			f.fuelCheck()
+			// read b (and a) at the top of the iteration
+			add, xor := byte(0x6a), byte(0x73)
+			if t == i64 {
+				add, xor = 0x7c, 0x85
+			}
+			c.LocalGet(acc).LocalGet(b).Op(add).LocalGet(a).Op(xor).LocalSet(acc)
+			if r.Bool() {
+				f.stmts(1)
+			}
+			switch r.Intn(5) {
+			case 0: // b = a; a = const
+				c.LocalGet(a).LocalSet(b)
+				f.constOf(t)
+				c.LocalSet(a)
+			case 1: // a = const; then b = old a is NOT what happens: b = a (new)
+				f.constOf(t)
+				c.LocalSet(a)
+				c.LocalGet(a).LocalSet(b)
+			case 2: // swap
+				c.LocalGet(a).LocalGet(b).LocalSet(a).LocalSet(b)
+			case 3: // b = a; a = acc
+				c.LocalGet(a).LocalSet(b)
+				c.LocalGet(acc).LocalSet(a)
+			default: // rotate a -> b -> acc -> a
+				c.LocalGet(a).LocalGet(b).LocalGet(acc).LocalSet(a).LocalSet(b).LocalSet(acc)
+			}
+			c.LocalGet(ctr).I32Const(1).Op(0x6b).LocalTee(ctr).BrIf(0)
+			c.End()
+			f.labels = f.labels[:len(f.labels)-1]
+			f.ctrUsed--
+			f.g.use("loop-carried-shuffle")
 		}
 	default:
 		f.store(d)
